@@ -782,13 +782,16 @@ PROBES = [
     "failed_call_retried",
 ]
 RULE = (
-    "one case = one seeded history of HostnameTrieSet.add calls by 1-4 writer clients (family 'random'), or one add "
-    "multiset replayed under 2-4 seeded schedules into as many tries (family 'schedules'), or one of the repository's "
-    "import-time histories in list order / shuffled / the module-level trie itself (family 'bundled'); readers, live "
-    "iterator tasks and faults are interleaved by the schedule PRNG. After every add, every hostname of depth <= "
-    "depth+1 over the run's label alphabet is matched (URL form and label spelling rotate per host and per sweep; all "
-    "forms x 3 spellings at run end), and len / iteration are compared with the minimal covering set of the model (a "
-    "set of label tuples). distinct_nontrivial = distinct non-empty abstract model states (minimal covering sets) reached."
+    "one case = one seeded history of HostnameTrieSet.add calls by 1-4 writer clients on one or two independent sets "
+    "(family 'random'), or one add multiset replayed under 2-4 seeded schedules into as many sets (family 'schedules'), "
+    "or one of the repository's import-time histories in list order / shuffled / the module-level trie itself (family "
+    "'bundled'); readers, live iterator tasks and faults (cancellation at any step, add() of a non-string possibly "
+    "retried at once) are interleaved by the schedule PRNG; label pools: 2-4 plain labels, realistic, IDN/punycode, "
+    "look-alikes (localhosting, digits, string-suffix labels), wide (9 siblings), deep (6 labels). After adds, the "
+    "hostnames of depth <= depth+1 over the run's labels are matched (11 URL forms and 5 label spellings rotate per "
+    "host and per sweep; three complete rotations at run end), and len / iteration are compared with the minimal "
+    "covering set of the model (a set of label tuples); how much is observed after each add is part of the per-run "
+    "configuration. distinct_nontrivial = distinct non-empty abstract model states (minimal covering sets) reached."
 )
 ASSUMPTIONS = [
     "ordinary hostnames only: no label is 'localhost', no host is four all-digit labels (documented as undefined)",
